@@ -105,3 +105,4 @@ def run(ctx, R):
     rtpreserve.rule_rvv_geninput(ctx, R)
     rtpreserve.rule_a64_calldest(ctx, R)
     vmcfg.rule_initorder(ctx, R, F)
+    x86loop.rule_isa_base(ctx, R)
